@@ -269,20 +269,19 @@ Lemma fr_load_dump : forall e clear s, fr false s (load_dump e clear s).
 Proof.
   intros; unfold load_dump.
   destruct (stored (sr (nd s))) as [[sn|]|]; try fr1.
-  destruct (self_ver (nd s) <? s_ver sn); [fr1|].
-  match goal with |- fr _ _ (if dyn _ then update_cluster ?l ?X else ?Y) =>
-    assert (fr false s Y) as HY end.
+  destruct (clear && (eidx (s_e1 sn) <=? applied (nd s))); [fr1|].
+  destruct (self_ver (nd s) <? s_ver sn); [fr1|]. cbv zeta.
+  match goal with |- fr _ _ (if dyn _ then _ else ?Y) => assert (fr false s Y) as HY end.
   { eapply fr_trans; [|fr0].
-    match goal with |- fr _ _ (if ?c then _ else _) => destruct c end.
-    - eapply fr_trans; [|fr0].
-      destruct clear; [frchain|].
-      destruct (get_entries _ _ _ _) as [|a [|b [|? ?]]]; frchain.
-      destruct (entry_eqb a (s_e0 sn) && entry_eqb b (s_e1 sn)); frchain.
-    - destruct clear; [frchain|].
-      destruct (get_entries _ _ _ _) as [|a [|b [|? ?]]]; frchain.
-      destruct (entry_eqb a (s_e0 sn) && entry_eqb b (s_e1 sn)); frchain. }
+    match goal with |- fr _ _ (if ?c then upd ?f ?X else ?X) => assert (fr false s X) as HX end.
+    { match goal with |- fr _ _ (if ?k then _ else _) => destruct k end; frchain. }
+    match goal with |- fr _ _ (if ?c then _ else _) => destruct c end; [|exact HX].
+    eapply fr_trans; [exact HX | fr0]. }
   destruct (dyn (cf e)); [|exact HY].
-  eapply fr_trans; [exact HY | apply fr_update_cluster].
+  match goal with |- fr _ _ (if _ then apply_membership _ _ ?U else ?U) => assert (fr false s U) as HU end.
+  { eapply fr_trans; [exact HY | apply fr_update_cluster]. }
+  match goal with |- fr _ _ (if ?c then _ else _) => destruct c end; [|exact HU].
+  eapply fr_trans; [exact HU | apply fr_apply_membership].
 Qed.
 #[export] Hint Resolve fr_load_dump : frdb.
 
